@@ -34,6 +34,7 @@ type Engine struct {
 	noEffect      []string
 	repo          string
 	globalTables  map[types.Object][]constant.Value // immutable package-level lookup tables
+	nonNilGlobals map[types.Object]bool             // package-level error values created once and never reassigned
 }
 
 var defaultNoEffect = []string{
@@ -511,6 +512,7 @@ func (vc *VC) frameObligations(fn *ssa.Function, con *Contract, args []Val, entr
 // are lookup tables; their contents are taken from the source.
 func (e *Engine) findGlobalTables() {
 	e.globalTables = map[types.Object][]constant.Value{}
+	e.nonNilGlobals = map[types.Object]bool{}
 	cand := map[types.Object][]constant.Value{}
 	for path, p := range e.pkgs {
 		if !strings.HasPrefix(path, modPath) || p.TypesInfo == nil {
@@ -524,6 +526,20 @@ func (e *Engine) findGlobalTables() {
 				}
 				for _, sp := range gd.Specs {
 					vs, ok := sp.(*ast.ValueSpec)
+					if ok && len(vs.Names) == len(vs.Values) {
+						// var ErrX = errors.New(...) / fmt.Errorf(...)
+						for i, val := range vs.Values {
+							if call, isCall := val.(*ast.CallExpr); isCall {
+								if sel, isSel := call.Fun.(*ast.SelectorExpr); isSel {
+									if id, isID := sel.X.(*ast.Ident); isID && ((id.Name == "errors" && sel.Sel.Name == "New") || (id.Name == "fmt" && sel.Sel.Name == "Errorf")) {
+										if obj := p.TypesInfo.Defs[vs.Names[i]]; obj != nil {
+											e.nonNilGlobals[obj] = true
+										}
+									}
+								}
+							}
+						}
+					}
 					if !ok || len(vs.Names) != 1 || len(vs.Values) != 1 {
 						continue
 					}
@@ -559,7 +575,7 @@ func (e *Engine) findGlobalTables() {
 			}
 		}
 	}
-	if len(cand) == 0 {
+	if len(cand) == 0 && len(e.nonNilGlobals) == 0 {
 		return
 	}
 	// any store whose address is rooted at the global (outside package initialisation) disqualifies it
@@ -588,6 +604,7 @@ func (e *Engine) findGlobalTables() {
 						continue
 					case *ssa.Global:
 						delete(cand, a.Object())
+						delete(e.nonNilGlobals, a.Object())
 					}
 					break
 				}
